@@ -315,6 +315,8 @@ def _expand_state_inner(task):
                     for extra in spec.get("extra_judges", []):
                         from .judge import EXTRA
                         V.extend(EXTRA[extra](T))
+                    if spec.get("continuation") and not V and res.ok and a[0] == "measure":
+                        V.extend(continuation_c05(T, w1, m0))
                     if twin == "c08":
                         V.extend(TW.compare_c08(T, leaves_t, list(m0.ref.names), m0.ref.dims, Obs))
                         out["twin_compared"] += 1
@@ -348,6 +350,53 @@ def _expand_state_inner(task):
     except Exception as ex:  # noqa: BLE001
         out["error"] = "".join(traceback.format_exception(type(ex), ex, ex.__traceback__))[-3000:]
     return out
+
+
+def continuation_c05(T, w1, m0):
+    """C05 continuation menu after one measurement leaf (each on its own clone of the post-state):
+    nd/re-measure : a non-destructively measured subsystem measured again gives the same value, with certainty
+    reuse         : an operation / channel / measurement request on a destroyed subsystem raises
+    cont          : a survivor that was not measured still accepts a gate (no exception)"""
+    from .judge import _viol
+    V = []
+    a, res = T.a, T.res
+    destr = a[4]
+    pairs = res.value if isinstance(res.value, list) else []
+    for s, v in pairs:
+        k = m0.ref.kinds[s]
+        if destr and k in "FP":
+            for req in (["op", "state", [s], "X" if k == "P" else "Creation", None],
+                        ["kraus", "state", [s], "dephase" if k == "P" else "ident", None],
+                        ["measure", "state", [s], True, True]):
+                w = w1.clone()
+                r = w.apply(req, [])
+                if r.ok:
+                    V.append(_viol("C05", "reuse", T, "accepted-on-destroyed",
+                                   f"{req[0]} on destroyed {s} returned {r.value!r} instead of failing"))
+        else:
+            w = w1.clone()
+            r = w.apply(["measure", "state", [s], True, False], [])
+            if not r.ok:
+                V.append(_viol("C05", "nd", T, "remeasure-" + r.symptom(), f"re-measuring {s} after outcome {v}: {r.exc_msg}"))
+            else:
+                got = dict((x, y) for x, y in r.value) if isinstance(r.value, list) else {}
+                pp = 1.0
+                for c in r.calls:
+                    pp *= float(c["p"][c["chosen"]]) if c["p"] is not None else 1.0
+                alt = any(c["p"] is not None and np.sum(np.asarray(c["p"]) > 1e-9) > 1 for c in r.calls)
+                if got.get(s) != v or alt or abs(pp - 1) > 1e-6:
+                    V.append(_viol("C05", "nd", T, "remeasure-differs",
+                                   f"re-measuring {s} after outcome {v} gave {r.value!r} (path probability {pp:.6f})"))
+    measured = set(s for s, _ in pairs)
+    others = [s for s in T.m1.ref.names if s not in measured][:2] if T.m1 is not None else []
+    for s in others:
+        k = m0.ref.kinds[s]
+        req = ["op", "state", [s], {"P": "X", "F": "FIdentity", "Q": "QExpr"}[k], None]
+        w = w1.clone()
+        r = w.apply(req, [])
+        if not r.ok:
+            V.append(_viol("C05", "cont", T, "survivor-" + r.symptom(), f"{req[3]} on unmeasured {s} after the measurement: {r.exc_msg}"))
+    return V
 
 
 def make_fault_transition(w0, m0, o0, canon0, a, script, res, w1):
